@@ -169,6 +169,9 @@ class Cond:
     """kind: 'cmp' (lhs, op, rhs) | 'not' (c,) | 'and' / 'or' (c...) | 'truth' (value,) | 'opaque' (text,)"""
 
     def __init__(self, kind: str, *args, node=None):
+        if kind == "cmp" and len(args) == 3 and args[1] in (">", ">="):
+            # canonical orientation: a > b is stored as b < a, so that rules never depend on which way round a comparison was written
+            args = (args[2], "<" if args[1] == ">" else "<=", args[0])
         self.kind = kind
         self.args = args
         self.node = node
